@@ -128,18 +128,30 @@ Section OpenEnd.
     cbn [map fold_left]. rewrite (a_apply_norm m r Hr). apply IH.
   Qed.
 
-  (* reading a collection [old] overlaid with the entries of a chain of batches that are all newer *)
-  Lemma newest_batches k : forall acc old s e m,
-    Forall jb_ok acc -> jchain (s + 1) acc e -> (forall x, In x old -> e_seq x <= s) ->
-    History.res p (newest c k s old None) = a_get c k m ->
-    History.res p (newest c k (e - 1) (old ++ flat_map jb_entries acc) None) = a_get c k (apply_batches m acc) /\
-    (forall x, In x (old ++ flat_map jb_entries acc) -> e_seq x <= e - 1).
+  Lemma jchain_ge l : forall cur e, jchain cur l e -> forall b, In b l -> cur <= fst b.
   Proof.
-    induction acc as [|b r IH]; intros old s e m Hok Hch Hold Hm.
-    - cbn [jchain flat_map apply_batches fold_left] in *. subst e. rewrite app_nil_r.
-      replace (s + 1 - 1) with s by lia. split; [exact Hm|exact Hold].
+    induction l as [|x r IH]; intros cur e H b Hb; [destruct Hb|].
+    destruct H as (H1 & H2). destruct Hb as [<-|Hb]; [exact H1|].
+    specialize (IH _ _ H2 b Hb). unfold jb_n in *. lia.
+  Qed.
+
+  (* reading a collection [old] overlaid with the entries of a chain of batches that are all newer than it: at any
+     sequence number sr that is not below the collection and the chain *)
+  Lemma newest_batches k : forall acc old s cur e m sr,
+    Forall jb_ok acc -> jchain cur acc e -> (forall b, In b acc -> s < fst b) ->
+    (forall x, In x old -> e_seq x <= s) ->
+    History.res p (newest c k s old None) = a_get c k m ->
+    s <= sr -> e <= sr + 1 ->
+    History.res p (newest c k sr (old ++ flat_map jb_entries acc) None) = a_get c k (apply_batches m acc) /\
+    (forall x, In x (old ++ flat_map jb_entries acc) -> e_seq x <= sr).
+  Proof.
+    induction acc as [|b r IH]; intros old s cur e m sr Hok Hch Hnew Hold Hm Hsr He.
+    - cbn [flat_map apply_batches fold_left]. rewrite app_nil_r. split.
+      + rewrite (newest_seq_irrelevant c k s sr old None Hold Hsr). exact Hm.
+      + intros x Hx. specialize (Hold x Hx). lia.
     - inversion Hok as [|? ? Hb Hr]; subst. destruct Hch as (H1 & Hch).
       destruct Hb as (Hw & Hb1 & Hs & _ & _).
+      pose proof (Hnew b (or_introl eq_refl)) as Hsb.
       cbn [flat_map]. rewrite app_assoc.
       assert (Hold' : forall x, In x old -> e_seq x <= fst b - 1) by (intros x Hx; specialize (Hold x Hx); lia).
       assert (Hm' : History.res p (newest c k (fst b - 1) old None) = a_get c k m).
@@ -149,13 +161,15 @@ Section OpenEnd.
       unfold OpenJournalProofs.jb_entries in *.
       assert (Es : fst b - 1 + N.of_nat (length (jb_recs b)) = fst b + jb_n b - 1) by (unfold jb_n; lia).
       rewrite Es in Hh.
-      destruct (IH (old ++ stamp (fst b - 1) (map (norm_rec p) (jb_recs b))) (fst b + jb_n b - 1) e
-                   (fold_left (a_apply c p) (jb_recs b) m) Hr) as (G & B).
-      + replace (fst b + jb_n b - 1 + 1) with (fst b + jb_n b) by lia. exact Hch.
+      pose proof (jchain_le _ _ _ Hch) as Hle.
+      apply (IH (old ++ stamp (fst b - 1) (map (norm_rec p) (jb_recs b))) (fst b + jb_n b - 1) (fst b + jb_n b) e
+                (fold_left (a_apply c p) (jb_recs b) m) sr Hr Hch).
+      + intros b' Hb'. pose proof (jchain_ge _ _ _ Hch b' Hb'). lia.
       + intros x Hx. apply in_app_or in Hx as [Hx|Hx]; [specialize (Hold' x Hx); lia|].
         apply stamp_seq in Hx as [_ Hx]. rewrite map_length in Hx. unfold jb_n. lia.
       + exact Hh.
-      + split; [|exact B]. rewrite G. reflexivity.
+      + lia.
+      + exact He.
   Qed.
 
   (* ---------------------------------------------------------------- distinctness of the replayed entries *)
@@ -200,47 +214,49 @@ Section OpenEnd.
 
   (* ---------------------------------------------------------------- what the recovered state answers *)
   (* st0: the tables Open found with an empty buffer; d': the buffer after the replay, holding the entries of the
-     accepted batches; every stored entry is older than the running number cur the replay started from *)
-  Theorem replayed_state_answers st0 d0 d' bs cur k m :
+     accepted batches.  s0: a sequence number that no stored entry exceeds (the recorded one) and below which
+     every batch the sequence rule can accept starts; cur: the running number the replay starts from *)
+  Theorem replayed_state_answers st0 d0 d' bs s0 cur k m :
     wfb st0 -> bs_mem st0 = Some d0 -> mem_entries mp (Some d0) = [] ->
     uniq_in (all_entries (absS st0)) ->
-    1 <= cur -> (forall x, In x (all_entries (absS st0)) -> e_seq x < cur) ->
+    (forall x, In x (all_entries (absS st0)) -> e_seq x <= s0) ->
+    s0 <= cur -> (forall b, In b bs -> cur <= fst b -> s0 < fst b) ->
     Forall jb_ok bs -> snd (accepted bs cur) <= keyMaxSeq p ->
     mem_ok c p mp d' ->
     (forall x, In x (mem_entries mp (Some d')) <-> In x (flat_map jb_entries (fst (accepted bs cur)))) ->
     wf_bytes k ->
-    bapi (getb st0 k (cur - 1)) = Some (a_get c k m) ->
+    bapi (getb st0 k s0) = Some (a_get c k m) ->
     wfb (wmem st0 d') /\
     bapi (getb (wmem st0 d') k (snd (accepted bs cur))) = Some (a_get c k (apply_batches m (fst (accepted bs cur)))).
   Proof.
-    intros W Hd He0 Hu H1 Hold Hbs Hmax Hm' Hin Wk Htab.
+    intros W Hd He0 Hu Hold Hsc Hgap Hbs Hmax Hm' Hin Wk Htab.
     set (acc := fst (accepted bs cur)) in *. set (e := snd (accepted bs cur)) in *.
     assert (Hch : jchain cur acc e) by apply accepted_chain.
     assert (Hacc : Forall jb_ok acc).
     { apply Forall_forall. intros b Hb. rewrite Forall_forall in Hbs. apply Hbs. exact (accepted_in bs cur b Hb). }
     assert (Hle : cur <= e) by exact (jchain_le _ _ _ Hch).
-    assert (Hold' : forall x, In x (all_entries (absS st0)) -> e_seq x <= cur - 1) by (intros x Hx; specialize (Hold x Hx); lia).
-    assert (Hnew : forall a, In a (flat_map jb_entries acc) -> cur - 1 < e_seq a).
-    { intros a Ha. destruct (chain_entries_range acc _ _ Hacc Hch a Ha). lia. }
+    assert (Hgap' : forall b, In b acc -> s0 < fst b).
+    { intros b Hb. apply Hgap; [exact (accepted_in bs cur b Hb)|exact (jchain_ge _ _ _ Hch b Hb)]. }
+    assert (Hnew : forall a, In a (flat_map jb_entries acc) -> s0 < e_seq a).
+    { intros a Ha. apply in_flat_map in Ha as (b & Hb & Ha). specialize (Hgap' b Hb).
+      assert (H1 : 1 <= fst b) by lia. destruct (jb_entries_range b a Ha H1). lia. }
     assert (Hin' : forall x, In x (mem_entries mp (Some d')) <-> In x (mem_entries mp (Some d0)) \/ In x (flat_map jb_entries acc)).
     { intros x. rewrite He0, Hin. cbn [In]. tauto. }
-    destruct (write_wf_gen st0 d0 d' _ (cur - 1) W Hd Hm' Hold' Hnew Hin') as [W' SE].
+    destruct (write_wf_gen st0 d0 d' _ s0 W Hd Hm' Hold Hnew Hin') as [W' SE].
     split; [exact W'|].
     rewrite (get_correct_bytes c ok p pok seek_val mp mpok tp crc decompress fname ufc verify ri k e Wk Hmax _ W').
-    rewrite (get_correct_bytes c ok p pok seek_val mp mpok tp crc decompress fname ufc verify ri k (cur - 1) Wk ltac:(lia) _ W) in Htab.
+    rewrite (get_correct_bytes c ok p pok seek_val mp mpok tp crc decompress fname ufc verify ri k s0 Wk ltac:(lia) _ W) in Htab.
     cbn [bapi] in *. f_equal. injection Htab as Htab.
     assert (Hu2 : uniq_in (all_entries (absS st0) ++ flat_map jb_entries acc)).
     { intros a b Ha Hb Euk Eseq. apply in_app_iff in Ha. apply in_app_iff in Hb.
       destruct Ha as [Ha|Ha], Hb as [Hb|Hb].
       - apply Hu; assumption.
-      - specialize (Hold' a Ha). specialize (Hnew b Hb). lia.
-      - specialize (Hold' b Hb). specialize (Hnew a Ha). lia.
+      - specialize (Hold a Ha). specialize (Hnew b Hb). lia.
+      - specialize (Hold b Hb). specialize (Hnew a Ha). lia.
       - exact (chain_entries_uniq acc _ _ Hacc Hch a b Ha Hb Eseq). }
     rewrite <- (newest_same_elems c ok k _ _ _ Hu2 SE).
     change (api_of (group_res p ?z)) with (History.res p z) in *.
-    assert (Hch' : jchain (cur - 1 + 1) acc e) by (replace (cur - 1 + 1) with cur by lia; exact Hch).
-    destruct (newest_batches k acc (all_entries (absS st0)) (cur - 1) e m Hacc Hch' Hold' Htab) as (G & B).
-    rewrite <- G. f_equal.
-    apply (newest_seq_irrelevant c k (e - 1) e _ None B). lia.
+    destruct (newest_batches k acc (all_entries (absS st0)) s0 cur e m e Hacc Hch Hgap' Hold Htab ltac:(lia) ltac:(lia)) as (G & _).
+    exact G.
   Qed.
 End OpenEnd.
